@@ -138,6 +138,9 @@ func hasProp(ps []string, p string) bool {
 // solveAll renders and solves the obligations accepted by keep.
 func solveAll(cfg Config, units []*Unit, keep func(o *sym.Obligation) bool, outDir string) []*Job {
 	os.MkdirAll(outDir, 0o755)
+	if os.Getenv("GOVC_TIMING") != "" {
+		fmt.Fprintf(os.Stderr, "timing: start render at %s\n", time.Now().Format("15:04:05.000"))
+	}
 	var jobs []*Job
 	for _, u := range units {
 		if u.X == nil {
@@ -169,6 +172,9 @@ func solveAll(cfg Config, units []*Unit, keep func(o *sym.Obligation) bool, outD
 		}(byExec[x])
 	}
 	wg.Wait()
+	if os.Getenv("GOVC_TIMING") != "" {
+		fmt.Fprintf(os.Stderr, "timing: rendered %d scripts at %s\n", len(jobs), time.Now().Format("15:04:05.000"))
+	}
 	var fs []func()
 	for i, j := range jobs {
 		i, j := i, j
@@ -176,7 +182,11 @@ func solveAll(cfg Config, units []*Unit, keep func(o *sym.Obligation) bool, outD
 			if len(j.Script) > 768*1024 {
 				j.R = solve.Result{Answer: "error", Output: "script larger than the 768 KiB cap"}
 			} else {
-				j.R = solve.Race(j.Script, outDir, fmt.Sprintf("ob%05d", i), cfg.limit(), cfg.Seed, cfg.Tier == "thorough" && !j.O.Cover)
+				limit := cfg.limit()
+				if j.O.Cover && cfg.Tier != "thorough" && limit > 3*time.Second {
+					limit = 3 * time.Second // anti-vacuity checks must answer sat; quantified facts often make that slow
+				}
+				j.R = solve.Race(j.Script, outDir, fmt.Sprintf("ob%05d", i), limit, cfg.Seed, cfg.Tier == "thorough" && !j.O.Cover)
 			}
 			switch {
 			case j.O.Cover:
@@ -203,6 +213,9 @@ func solveAll(cfg Config, units []*Unit, keep func(o *sym.Obligation) bool, outD
 		})
 	}
 	solve.Pool(16, fs)
+	if os.Getenv("GOVC_TIMING") != "" {
+		fmt.Fprintf(os.Stderr, "timing: solved at %s\n", time.Now().Format("15:04:05.000"))
+	}
 	return jobs
 }
 
